@@ -40,9 +40,9 @@ func checkRequireJSON(req *protocol.Request, tagInfo TagInfo) bool {
 		return false
 	}
 	path := splitJSONName(tagInfo.JSONName)
-	if !jsonKeyExists(req.Body(), path) {
+	if !jsonKeyExists(req.Body(), path, tagInfo.JSONExact) {
 		// There should be a superior if it is empty, it will report 'true' for required
-		if len(path) > 1 && !jsonKeyExists(req.Body(), path[:len(path)-1]) {
+		if len(path) > 1 && !jsonKeyExists(req.Body(), path[:len(path)-1], false) {
 			return true
 		}
 		return false
@@ -52,8 +52,9 @@ func checkRequireJSON(req *protocol.Request, tagInfo TagInfo) bool {
 
 // jsonKeyExists looks the names up the way the body decoder fills fields: a key
 // that is spelled exactly like the name, or else one that equals it ignoring case
-// (the rule of encoding/json, which sonic follows).
-func jsonKeyExists(body []byte, path []string) bool {
+// (the rule of encoding/json, which sonic follows). exactLast: the last name has a
+// sibling that differs in case only, the key goes to the one that spells it exactly.
+func jsonKeyExists(body []byte, path []string, exactLast bool) bool {
 	exact := make([]interface{}, len(path))
 	for i := range path {
 		exact[i] = path[i]
@@ -67,9 +68,12 @@ func jsonKeyExists(body []byte, path []string) bool {
 		return false
 	}
 	cur := &root
-	for _, name := range path {
+	for i, name := range path {
 		next := cur.Get(name)
 		if !next.Exists() {
+			if exactLast && i == len(path)-1 {
+				return false
+			}
 			next = nil
 			_ = cur.ForEach(func(path ast.Sequence, n *ast.Node) bool {
 				if path.Key != nil && strings.EqualFold(*path.Key, name) {
@@ -93,5 +97,5 @@ func keyExist(req *protocol.Request, tagInfo TagInfo) bool {
 	if !strings.EqualFold(utils.FilterContentType(ct), consts.MIMEApplicationJSON) {
 		return false
 	}
-	return jsonKeyExists(req.Body(), splitJSONName(tagInfo.JSONName))
+	return jsonKeyExists(req.Body(), splitJSONName(tagInfo.JSONName), tagInfo.JSONExact)
 }
